@@ -470,6 +470,7 @@ type CalleeSpec struct {
 	Havoc    bool       // havoc all heaps
 	Results  []string   // names for results
 	MutGhosts []string  // ghosts havocked by the call (then constrained by ensures)
+	Preserves []string  // with havoc: type names whose heap components the call does not write
 	Used     int
 }
 
@@ -495,13 +496,28 @@ type FuncSpec struct {
 	Trusted   bool // lib contract (never verified against a body)
 	File      string
 	Lemmas    []*Clause
+	Preserves []string // without a modifies clause: type names whose heap components this function does not write (unchecked at call sites of unverified callees; checked when the function is verified)
+	Acquires  []Expr // locks held on return that were not held on entry (x.mu)
+	Releases  []Expr // locks held on entry and released before return
 	Binds     map[string]map[string]Expr // callee name -> callee ghost -> expression (evaluated at the call site)
 	MutGhosts []string                   // ghosts this function may change (declared with "ghostout")
 }
 
 type SpecFile struct {
-	Funcs  []*FuncSpec
-	Ghosts []*GhostField // ghost fields of types
+	Funcs    []*FuncSpec
+	Ghosts   []*GhostField // ghost fields of types
+	Monitors []*MonitorSpec
+}
+
+// MonitorSpec: state guarded by one mutex field of a struct type.
+type MonitorSpec struct {
+	Type       string // struct type name (package-relative)
+	Field      string // mutex field
+	Self       string // name of the struct pointer in the invariant
+	Protects   []string
+	Conds      []string // sync.Cond fields bound to this mutex
+	Invariants []*Clause
+	Pkg        string
 }
 
 type GhostField struct {
@@ -518,6 +534,7 @@ type specLine struct {
 func parseSpecLines(lines []specLine, pkg string, file string, trusted bool) (*SpecFile, error) {
 	sf := &SpecFile{}
 	var cur *FuncSpec
+	var curMon *MonitorSpec
 	var curCallee *CalleeSpec
 	var lastClause *Clause
 	calleeIndent := 0
@@ -596,7 +613,19 @@ func parseSpecLines(lines []specLine, pkg string, file string, trusted bool) (*S
 				}
 			}
 			curCallee = nil
+			curMon = nil
 			sf.Funcs = append(sf.Funcs, cur)
+			continue
+		case "monitor":
+			// monitor Type.field
+			i := strings.LastIndex(rest, ".")
+			if i < 0 {
+				return nil, fmt.Errorf("%s: monitor Type.field", ln.pos)
+			}
+			curMon = &MonitorSpec{Type: strings.TrimSpace(rest[:i]), Field: strings.TrimSpace(rest[i+1:]), Self: "self", Pkg: pkg}
+			sf.Monitors = append(sf.Monitors, curMon)
+			cur = nil
+			curCallee = nil
 			continue
 		case "ghostfield":
 			// ghostfield Job.ls int
@@ -606,6 +635,26 @@ func parseSpecLines(lines []specLine, pkg string, file string, trusted bool) (*S
 			}
 			i := strings.LastIndex(parts[0], ".")
 			sf.Ghosts = append(sf.Ghosts, &GhostField{Type: parts[0][:i], Field: parts[0][i+1:], Sort: parts[1]})
+			continue
+		}
+		if cur == nil && curMon != nil {
+			switch word {
+			case "self":
+				curMon.Self = rest
+			case "protects":
+				curMon.Protects = append(curMon.Protects, splitList(rest)...)
+			case "cond":
+				curMon.Conds = append(curMon.Conds, splitList(rest)...)
+			case "invariant":
+				c, err := mk("monitor-invariant", "monitor "+curMon.Type+"."+curMon.Field, rest, ln.pos)
+				if err != nil {
+					return nil, err
+				}
+				lastClause = c
+				curMon.Invariants = append(curMon.Invariants, c)
+			default:
+				return nil, fmt.Errorf("%s: unknown monitor clause %q", ln.pos, word)
+			}
 			continue
 		}
 		if cur == nil {
@@ -687,6 +736,18 @@ func parseSpecLines(lines []specLine, pkg string, file string, trusted bool) (*S
 			} else {
 				cur.Modifies = m
 			}
+		case "acquires", "releases":
+			for _, it := range splitTop(rest) {
+				e, err := ParseExpr(it)
+				if err != nil {
+					return nil, fmt.Errorf("%s: %v", ln.pos, err)
+				}
+				if word == "acquires" {
+					cur.Acquires = append(cur.Acquires, e)
+				} else {
+					cur.Releases = append(cur.Releases, e)
+				}
+			}
 		case "pure":
 			if curCallee != nil {
 				curCallee.Pure = true
@@ -696,6 +757,13 @@ func parseSpecLines(lines []specLine, pkg string, file string, trusted bool) (*S
 		case "havoc":
 			if curCallee != nil {
 				curCallee.Havoc = true
+			}
+		case "preserves":
+			if curCallee != nil {
+				curCallee.Havoc = true
+				curCallee.Preserves = append(curCallee.Preserves, splitList(rest)...)
+			} else {
+				cur.Preserves = append(cur.Preserves, splitList(rest)...)
 			}
 		case "loop":
 			// loop N invariant E | loop N decreases E
